@@ -21,6 +21,9 @@ pub struct Dev<const Q: usize> {
     /// call counters of the device hooks
     pub n_rst: u8,
     pub n_tst: u8,
+    /// when set, `num_errors()` reports this number instead of the real queue length (a queue
+    /// implementation with an arbitrary number of unread items, abstracted to its length)
+    pub fake_count: Option<usize>,
 }
 
 impl<const Q: usize> Dev<Q> {
@@ -35,6 +38,7 @@ impl<const Q: usize> Dev<Q> {
             tst_result: Ok(()),
             n_rst: 0,
             n_tst: 0,
+            fake_count: None,
         }
     }
 }
@@ -109,7 +113,10 @@ impl<const Q: usize> ErrorQueue for Dev<Q> {
         self.errors.pop_front_error()
     }
     fn num_errors(&self) -> usize {
-        self.errors.num_errors()
+        match self.fake_count {
+            Some(n) => n,
+            None => self.errors.num_errors(),
+        }
     }
     fn clear_errors(&mut self) {
         self.errors.clear_errors()
